@@ -14,8 +14,14 @@
        and is recorded as one rejection; an admitted call runs the request exactly
        once, returns its result unchanged (a panic is re-raised) and is recorded
        exactly once, as a success iff the acceptability predicate accepts the result;
-     * a call whose context is already done may return the context error, and then
-       touches nothing;
+     * a call whose context is already done when it is made returns the context error
+       and touches nothing (no request, no fallback, nothing recorded) -- whichever way
+       the breaker was reached: its own methods, the by-name functions, a wrapper;
+     * "returns its error unchanged" and "the fallback runs for rejected calls only" hold
+       for EVERY error value of the request, in particular for one that is or wraps the
+       breaker's own ErrServiceUnavailable (a second, open breaker further down) or a
+       context error: what the request returned never turns an admitted call into a
+       rejected one;
      * under sustained total failure the overwhelming majority of calls is rejected
        (counting clause, see "hard" below).
 
@@ -53,7 +59,13 @@ Stale == -1
 
 Apis     == {"do", "doAcc", "doFb", "doFbAcc", "allow"}
 Ctxs     == {"none", "live", "done"}
-Outcomes == {"ok", "err", "accErr", "panic"}
+\* what a request may do: succeed, fail with an ordinary error ("err", "accErr": two classes
+\* the acceptability predicate may tell apart), panic -- and the look-alikes of the breaker's
+\* own results: "unavail" (returns ErrServiceUnavailable itself), "wrapUnavail" (returns an
+\* error wrapping it), "ctxErr" (returns context.Canceled / DeadlineExceeded although the
+\* call's own context is live), "panicUnavail" (panics with ErrServiceUnavailable).
+Outcomes == {"ok", "err", "accErr", "panic", "unavail", "wrapUnavail", "ctxErr", "panicUnavail"}
+IsPanic(out) == out \in {"panic", "panicUnavail"}
 HasFallback(api)   == api \in {"doFb", "doFbAcc"}
 HasAcceptable(api) == api \in {"doAcc", "doFbAcc"}
 
@@ -107,6 +119,8 @@ AddRec(rs, k) ==
 CountsAsSuccess(call) == call.out \in (IF HasAcceptable(call.api) THEN call.acc ELSE {"ok"})
 
 St(c) == calls[c].st
+\* a call on a context that is already done is neither admitted nor rejected
+CtxLive(call) == call.ctx # "done"
 Drop(f, c) == [x \in DOMAIN f \ {c} |-> f[x]]
 
 \* ------------------------------------------------------------------ actions
@@ -153,7 +167,7 @@ AdmitEff(c, lp) ==
   /\ calls' = [calls EXCEPT ![c].st = "admitted"]
   /\ UNCHANGED <<now, lo, recs, tot, fair>>
 DecideAdmit(c) ==
-  /\ c \in DOMAIN calls /\ St(c) = "started"
+  /\ c \in DOMAIN calls /\ St(c) = "started" /\ CtxLive(calls[c])
   /\ \E lp \in LastPassAfterAdmit : AdmitOK(lp) /\ AdmitEff(c, lp)
 
 RejectOK == RejectAllowed
@@ -164,10 +178,11 @@ RejectEff(c) ==
   /\ calls' = [calls EXCEPT ![c].st = "rejected"]
   /\ UNCHANGED <<now, lo, lastPass, fair>>
 DecideReject(c) ==
-  /\ c \in DOMAIN calls /\ St(c) = "started"
+  /\ c \in DOMAIN calls /\ St(c) = "started" /\ CtxLive(calls[c])
   /\ RejectOK /\ RejectEff(c)
 
-\* a done context may short-circuit the call: nothing is touched
+\* a done context short-circuits the call (it is the only thing such a call may do):
+\* nothing is touched
 DecideSkip(c) ==
   /\ c \in DOMAIN calls /\ St(c) = "started" /\ calls[c].ctx = "done"
   /\ calls' = [calls EXCEPT ![c].st = "skipped"]
@@ -194,8 +209,10 @@ Record(c) ==
   /\ c \in DOMAIN calls /\ St(c) \in {"ran", "resolving"}
   /\ RecordEff(c)
 
+\* the fallback runs for a rejected call only -- whatever the request of an admitted call returned
+FbOK(c) == c \in DOMAIN calls /\ St(c) = "rejected" /\ HasFallback(calls[c].api)
 FbRun(c) ==
-  /\ c \in DOMAIN calls /\ St(c) = "rejected" /\ HasFallback(calls[c].api)
+  /\ FbOK(c)
   /\ calls' = [calls EXCEPT ![c].st = "fbran"]
   /\ UNCHANGED <<now, lo, recs, tot, lastPass, hard, fair>>
 
@@ -203,7 +220,7 @@ FbRun(c) ==
 \* pan in {"no","same","other"} ("same": the request's own panic value came out again)
 ReturnOK(call, ret, pan) ==
   \/ /\ call.st = "recorded" /\ call.api # "allow"
-     /\ IF call.out = "panic" THEN pan = "same"
+     /\ IF IsPanic(call.out) THEN pan = "same"
         ELSE pan = "no" /\ ret = (IF call.out = "ok" THEN "nil" ELSE "same")
   \/ call.st = "rejected" /\ ~HasFallback(call.api) /\ ret = "unavail" /\ pan = "no"
   \/ call.st = "fbran" /\ pan = "no"           \* the statement does not say what comes back
